@@ -104,87 +104,91 @@ def rule_r1(ck, prog, S):
 
 
 def rule_r2(ck, prog):
-    want = {"SCPI_ResultInt32": ("resultUInt32BaseSign", 10, 1), "SCPI_ResultUInt32Base": ("resultUInt32BaseSign", "base", 0),
-            "SCPI_ResultInt64": ("resultUInt64BaseSign", 10, 1), "SCPI_ResultUInt64Base": ("resultUInt64BaseSign", "base", 0)}
-    for name, (callee, base, sign) in want.items():
+    """Scalar writers, decided on the calls each of them ends in (sa/interp.py: the writer is evaluated with its value
+    argument as a named unknown and, where it takes one, each radix; helpers are entered, the converter and the output
+    primitives are logged with their evaluated arguments).  Independent of how many helpers sit in between, what they are
+    called and how they are parameterised."""
+    from sa import interp as I
+    conv_bits = {"UInt32ToStrBaseSign": 32, "UInt64ToStrBaseSign": 64}
+    leaves = {k: "fresh" for k in ("writeData", "writeDelimiter", "UInt32ToStrBaseSign", "UInt64ToStrBaseSign")}
+    prefixes = {2: "#B", 8: "#Q", 16: "#H", 10: None}
+    want = (("SCPI_ResultInt32", 32, None, 1), ("SCPI_ResultUInt32Base", 32, "param", 0),
+            ("SCPI_ResultInt64", 64, None, 1), ("SCPI_ResultUInt64Base", 64, "param", 0), ("SCPI_ResultBool", 8, None, 0))
+    for name, bits, basemode, sign in want:
         f = prog.fn(name)
         if f is None:
             ck.anchor_lost("C07-R2", name)
             continue
-        st = K.site(f, "wiring", 0)
-        cs = list(f.calls(callee))
-        if len(cs) != 1:
-            ck.violated("C07-R2", st, K.loc(f), "%s does not call %s" % (name, callee))
+        ck.analysed(f)
+        st = K.site(f, "wiring", 0) if name != "SCPI_ResultBool" else K.site(f, "bool", 0)
+        probs = []
+        npaths = 0
+        for base in ((2, 8, 10, 16) if basemode == "param" else (10,)):
+            ctx = I.zero_object(prog, {"tk": "record", "ct": "struct _scpi_t"})
+            args = [I.Ptr([ctx], 0), I.Sym("val", bits)] + ([base] if basemode == "param" else [])
+            try:
+                outs, _m = I.explore(prog, name, args, follow=lambda n_: prog.fn(n_) is not None, effects=leaves)
+            except I.Stuck as e:
+                ck.undecided("C07-R2", st, K.loc(f), "%s cannot be evaluated: %s" % (name, e))
+                probs = None
+                break
+            for _ret, fr in outs:
+                npaths += 1
+                log = fr.plog
+                conv = [(n_, a) for n_, a in log if n_ in conv_bits]
+                if len(conv) != 1:
+                    probs.append("base %d: %d converter calls on a path" % (base, len(conv)))
+                    continue
+                cn, ca = conv[0]
+                v = ca[0]
+                if name == "SCPI_ResultBool":
+                    if v not in (0, 1):
+                        probs.append("booleans are not written as 1/0 (the converter receives %r)" % (v,))
+                else:
+                    if conv_bits[cn] != bits:
+                        probs.append("the %d-bit value is formatted by the %d-bit converter %s" % (bits, conv_bits[cn], cn))
+                    if not (isinstance(v, I.Sym) and v.name == "val"):
+                        probs.append("base %d: the converter does not receive the value argument itself (%r)" % (base, v))
+                    elif not v.intact():
+                        probs.append("the value is narrowed on its way to the converter (widths %s)" % [b_ for b_, _s in v.trail])
+                if len(ca) < 5 or ca[3] != base or (ca[4] != sign if isinstance(ca[4], int) else True):
+                    probs.append("base %d: the converter is called with (base %r, sign %r), expected (%d, %d)"
+                                 % (base, ca[3] if len(ca) > 3 else None, ca[4] if len(ca) > 4 else None, base, sign))
+                wr = [(n_, a) for n_, a in log if n_ == "writeData"]
+                dl = [i_ for i_, (n_, a) in enumerate(log) if n_ == "writeDelimiter"]
+                w0 = [i_ for i_, (n_, a) in enumerate(log) if n_ == "writeData"]
+                if not dl or (w0 and dl[0] > w0[0]):
+                    probs.append("base %d: no delimiter call in front of the output" % base)
+                pre = prefixes[base]
+                texts = []
+                for n_, a in wr:
+                    t_ = None
+                    if len(a) >= 3 and isinstance(a[1], I.Ptr) and isinstance(a[2], int):
+                        try:
+                            t_ = I.cstring(a[1])[:a[2]].decode("latin-1")
+                        except I.Stuck:
+                            t_ = None
+                    texts.append(t_)
+                digits = [(n_, a) for (n_, a), t_ in zip(wr, texts) if t_ is None]
+                lits = [t_ for t_ in texts if t_ is not None]
+                if lits != ([pre] if pre else []):
+                    probs.append("base %d is written with prefix %s, expected %s" % (base, lits or None, pre))
+                if len(digits) != 1 or len(digits[0][1]) < 3 or not (isinstance(digits[0][1][1], I.Ptr) and digits[0][1][1] == ca[1]) or \
+                        not (isinstance(digits[0][1][2], I.Sym) and digits[0][1][2].name.startswith("ret:" + cn)):
+                    probs.append("base %d: the digits written are not (converter buffer, converter result)" % base)
+                elif pre and texts and texts[0] is None:
+                    probs.append("base %d: the prefix is written after the digits" % base)
+                cobj = fr.vars[f.params[0]["name"]][0]
+                cobj = cobj.load() if isinstance(cobj, I.Ptr) else None
+                if not isinstance(cobj, dict) or cobj.get("output_count") != 1:
+                    probs.append("base %d: the result counter is not incremented exactly once" % base)
+        if probs is None:
             continue
-        a = C.call_args(cs[0])
-        gb = C.const_of(a[2]) if base == 10 else a[2].strip_all_casts().get("path")
-        if gb == base and C.const_of(a[3]) == sign and a[1].strip_all_casts().get("path") == f.params[1]["name"]:
-            ck.holds("C07-R2", st, K.loc(f, cs[0]), "(%s, %s)" % (base, "signed" if sign else "unsigned"))
+        if probs:
+            ck.violated("C07-R2", st, K.loc(f), "; ".join(sorted(set(probs))[:4]))
         else:
-            ck.violated("C07-R2", st, K.loc(f, cs[0]), "%s passes (base %s, sign %s)" % (name, gb, C.const_of(a[3])))
-        ck.analysed(f)
-    for name, conv in (("resultUInt32BaseSign", "UInt32ToStrBaseSign"), ("resultUInt64BaseSign", "UInt64ToStrBaseSign")):
-        f = prog.fn(name)
-        if f is None:
-            ck.anchor_lost("C07-R2", name)
-            continue
-        st = K.site(f, "prefix-and-digits-same-base", 0)
-        cv = list(f.calls(conv))
-        ok = len(cv) == 1
-        if ok:
-            a = C.call_args(cv[0])
-            basep = f.params[2]["name"]
-            ok = (a[0].strip_all_casts().get("path") == f.params[1]["name"] and a[3].strip_all_casts().get("path") == basep
-                  and a[4].strip_all_casts().get("path") == f.params[3]["name"])
-            bufp = a[1].strip_all_casts().get("path")
-            lenv = None
-            par = f.parent_of(cv[0])
-            while par is not None and par.k in ("ImplicitCastExpr", "ParenExpr"):
-                par = f.parent_of(par)
-            if par is not None and par.get("op") == "=":
-                lenv = par.child(0).strip().get("path")
-            elif par is not None and par.k == "DeclStmt":
-                lenv = par["decls"][0]["name"]
-
-            def emits(host, base_name, buf_name, len_name):
-                gp = list(host.calls("getBasePrefix"))
-                wr = K.ordinal_sites(list(host.calls("writeData")))
-                return (len(gp) == 1 and C.call_args(gp[0])[0].strip_all_casts().get("path") == base_name and len(wr) == 2 and
-                        C.const_of(K.arg(wr[0], 2)) == 2 and K.arg(wr[1], 2).strip_all_casts().get("path") == len_name and
-                        K.arg(wr[1], 1).strip_all_casts().get("path") == buf_name)
-            if ok:
-                ok = emits(f, basep, bufp, lenv)
-                if not ok:
-                    # the emitting tail may live in a static helper that receives (base, buffer, length)
-                    for hc in f.calls():
-                        h = prog.fn(hc.get("callee") or "")
-                        if h is None or not h.static or h is f:
-                            continue
-                        args_ = [x.strip_all_casts().get("path") for x in C.call_args(hc)]
-                        if basep in args_ and bufp in args_ and lenv in args_ and len(h.params) >= len(args_):
-                            pn = lambda v_: h.params[args_.index(v_)]["name"]
-                            if emits(h, pn(basep), pn(bufp), pn(lenv)):
-                                ok = True
-        if ok:
-            ck.holds("C07-R2", st, K.loc(f), "value, base and sign passed through; prefix from the same base; digits = returned length")
-        else:
-            ck.violated("C07-R2", st, K.loc(f), "%s does not format value/base/sign consistently with its prefix" % name)
-        ck.analysed(f)
-    f = prog.fn("SCPI_ResultBool")
-    if f is not None:
-        st = K.site(f, "bool", 0)
-        cs = list(f.calls("resultUInt32BaseSign"))
-        ok = False
-        if len(cs) == 1:
-            a = C.call_args(cs[0])
-            v = a[1].strip_all_casts()
-            ok = C.const_of(a[2]) == 10 and C.const_of(a[3]) == 0 and v.k == "ConditionalOperator" and \
-                C.const_of(v.child(1)) == 1 and C.const_of(v.child(2)) == 0
-        if ok:
-            ck.holds("C07-R2", st, K.loc(f), "val ? 1 : 0, decimal, unsigned")
-        else:
-            ck.violated("C07-R2", st, K.loc(f), "booleans are not written as 1/0 decimal")
-        ck.analysed(f)
+            ck.holds("C07-R2", st, K.loc(f), "%d paths: value -> %d-bit converter with (base, %s), prefix of the same base, digits = converter "
+                     "buffer/result, one result counted" % (npaths, bits, "signed" if sign else "unsigned"))
 
 
 def rule_r3(ck, prog, S):
